@@ -24,15 +24,25 @@
 #define NSTREAMS 4
 #endif
 enum { VIO_NOFAIL = 0xFFFF };
-struct VFile { unsigned char data[FCAP]; size_t size; bool exists; size_t flushed;    // bytes [0, flushed) have reached the disk
-               unsigned char durable[FCAP]; size_t durableSize; bool durableExists; unsigned mode; unsigned long opens, truncs; };
+// file contents live in top-level arrays (one per file) so that CBMC keeps them field-sensitive (concrete bytes propagate)
+static unsigned char vio_bytes0[FCAP], vio_bytes1[FCAP], vio_durable0[FCAP], vio_durable1[FCAP];
+struct VFile { unsigned char* data; size_t size; bool exists; size_t flushed;    // bytes [0, flushed) have reached the disk
+               unsigned char* durable; size_t durableSize; bool durableExists; unsigned mode; unsigned long opens, truncs; };
 struct VStream { bool used; int file; size_t pos; bool eof; bool writable, readable; bool dirty; };
 struct Vio { VFile f[NFILES]; VStream s[NSTREAMS]; unsigned ops; unsigned failAt; unsigned crashAt; bool crashed; unsigned long failures; unsigned lastOpenMode; unsigned long nOpen, nWrite, nFlush, nTrunc, nLock, nClose; };
 static Vio vio;
-static inline void vio_reset() { vio.ops = 0; vio.failAt = VIO_NOFAIL; vio.crashAt = VIO_NOFAIL; vio.crashed = false; vio.failures = 0; for (int i = 0; i < NSTREAMS; i++) vio.s[i].used = false; for (int i = 0; i < NFILES; i++) vio.f[i].flushed = vio.f[i].size; }
+// concrete switches (set by the harness before the code under test runs): without them a merged, symbolic operation counter
+// would make symbolic execution explore the crash snapshot at every single file operation
+static bool vio_arm_crash, vio_arm_fail;
+// FILE* handles are the addresses of real FILE objects; the model stream is found by comparing addresses (no type punning
+// between FILE and VStream: a punned access would defeat CBMC's field sensitivity and constant propagation)
+static FILE vio_handles[NSTREAMS];
+static inline VStream* vio_s(FILE* fp) { for (int k = 1; k < NSTREAMS; k++) if (fp == &vio_handles[k]) return &vio.s[k]; return &vio.s[0]; }
+static inline void vio_bind() { vio.f[0].data = vio_bytes0; vio.f[0].durable = vio_durable0; if (NFILES > 1) { vio.f[1].data = vio_bytes1; vio.f[1].durable = vio_durable1; } }
+static inline void vio_reset() { vio_bind(); vio.ops = 0; vio.failAt = VIO_NOFAIL; vio.crashAt = VIO_NOFAIL; vio.crashed = false; vio.failures = 0; for (int i = 0; i < NSTREAMS; i++) vio.s[i].used = false; for (int i = 0; i < NFILES; i++) vio.f[i].flushed = vio.f[i].size; }
 // the process dies now: data written but not yet flushed are lost; `partial` = a flush is in progress, any prefix of the
 // unflushed tail may have reached the disk.  (The object store writes its files sequentially after truncating them.)
-static inline void vio_freeze(bool partial)
+static __attribute__((noinline)) void vio_freeze(bool partial)
 {
 	if (vio.crashed) return; vio.crashed = true;
 	for (int i = 0; i < NFILES; i++)
@@ -44,7 +54,7 @@ static inline void vio_freeze(bool partial)
 	}
 }
 // one operation: returns true if this operation must fail; handles the crash point
-static inline bool vio_step(bool flushing = false) { unsigned k = vio.ops++; if (k == vio.crashAt) vio_freeze(flushing); if (k == vio.failAt) { vio.failures++; return true; } return false; }
+static inline bool vio_step(bool flushing = false) { unsigned k = vio.ops++; if (vio_arm_crash && k == vio.crashAt) vio_freeze(flushing); if (vio_arm_fail && k == vio.failAt) { vio.failures++; return true; } return false; }
 static inline int vio_file_of(const char* path) { int i = path[0] - 'A'; return (i >= 0 && i < NFILES) ? i : -1; }
 extern "C" {
 int vio_open3(const char* path, int flags, unsigned mode)
@@ -59,14 +69,14 @@ int vio_open3(const char* path, int flags, unsigned mode)
 	for (int k = 0; k < NSTREAMS; k++) if (!vio.s[k].used) { VStream* s = &vio.s[k]; s->used = true; s->file = i; s->pos = 0; s->eof = false; s->dirty = false; s->readable = (flags & O_ACCMODE) != O_WRONLY; s->writable = (flags & O_ACCMODE) != O_RDONLY; return 100 + k; }
 	vstl_capacity_exceeded(); return -1;
 }
-FILE* vio_fdopen(int fd, const char* mode) { if (fd < 100 || fd >= 100 + NSTREAMS) return NULL; if (vio_step()) { vio.s[fd - 100].used = false; return NULL; } return (FILE*)&vio.s[fd - 100]; }
-FILE* vio_fopen(const char* path, const char* mode) { int fd = vio_open3(path, mode[0] == 'r' ? O_RDONLY : (O_WRONLY | O_CREAT | O_TRUNC), 0666); if (fd < 0) return NULL; return (FILE*)&vio.s[fd - 100]; }
-int vio_fileno(FILE* fp) { VStream* s = (VStream*)fp; return 100 + (int)(s - vio.s); }
+FILE* vio_fdopen(int fd, const char* mode) { if (fd < 100 || fd >= 100 + NSTREAMS) return NULL; if (vio_step()) { vio.s[fd - 100].used = false; return NULL; } return &vio_handles[fd - 100]; }
+FILE* vio_fopen(const char* path, const char* mode) { int fd = vio_open3(path, mode[0] == 'r' ? O_RDONLY : (O_WRONLY | O_CREAT | O_TRUNC), 0666); if (fd < 0) return NULL; return &vio_handles[fd - 100]; }
+int vio_fileno(FILE* fp) { for (int k = 1; k < NSTREAMS; k++) if (fp == &vio_handles[k]) return 100 + k; return 100; }
 int vio_fstat(int fd, struct stat* st) { if (vio_step()) return -1; VStream* s = &vio.s[fd - 100]; st->st_size = (off_t)vio.f[s->file].size; return 0; }
-int vio_feof(FILE* fp) { return ((VStream*)fp)->eof ? 1 : 0; }
+int vio_feof(FILE* fp) { return vio_s(fp)->eof ? 1 : 0; }
 size_t vio_fread(void* p, size_t sz, size_t n, FILE* fp)
 {
-	VStream* s = (VStream*)fp; VFile* f = &vio.f[s->file]; unsigned char* d = (unsigned char*)p; size_t want = sz * n, got = 0;
+	VStream* s = vio_s(fp); VFile* f = &vio.f[s->file]; unsigned char* d = (unsigned char*)p; size_t want = sz * n, got = 0;
 	if (vio_step()) return 0;
 	for (size_t k = 0; k < want && k < FCAP; k++) if (s->pos < f->size) { d[k] = f->data[s->pos]; s->pos++; got++; }
 	if (got < want) s->eof = true;
@@ -74,7 +84,7 @@ size_t vio_fread(void* p, size_t sz, size_t n, FILE* fp)
 }
 size_t vio_fwrite(const void* p, size_t sz, size_t n, FILE* fp)
 {
-	VStream* s = (VStream*)fp; VFile* f = &vio.f[s->file]; const unsigned char* d = (const unsigned char*)p; size_t want = sz * n;
+	VStream* s = vio_s(fp); VFile* f = &vio.f[s->file]; const unsigned char* d = (const unsigned char*)p; size_t want = sz * n;
 	vio.nWrite++;
 	if (vio_step()) return 0;                                  // e.g. ENOSPC / EIO when the stdio buffer is flushed underneath
 	if (s->pos + want > FCAP) { vstl_capacity_exceeded(); return 0; }   // files larger than FCAP: outside the bound
@@ -85,14 +95,14 @@ size_t vio_fwrite(const void* p, size_t sz, size_t n, FILE* fp)
 }
 int vio_fflush(FILE* fp)
 {
-	VStream* s = (VStream*)fp; VFile* f = &vio.f[s->file]; vio.nFlush++;
+	VStream* s = vio_s(fp); VFile* f = &vio.f[s->file]; vio.nFlush++;
 	if (vio_step(true)) { f->size = f->flushed <= f->size ? f->flushed : f->size; s->dirty = false; return EOF; }   // the buffered data are lost (disk full)
 	f->flushed = f->size; s->dirty = false;
 	return 0;
 }
 int vio_fseek(FILE* fp, long off, int whence)
 {
-	VStream* s = (VStream*)fp; VFile* f = &vio.f[s->file];
+	VStream* s = vio_s(fp); VFile* f = &vio.f[s->file];
 	if (vio_step()) return -1;
 	if (whence == SEEK_END) s->pos = f->size; else if (whence == SEEK_SET) { if (off < 0) return -1; s->pos = (size_t)off; } else return -1;
 	s->eof = false; return 0;
@@ -102,7 +112,7 @@ int vio_ftruncate(int fd, off_t len) { vio.nTrunc++; if (vio_step()) return -1; 
 int vio_fcntl3(int fd, int cmd, void* arg) { vio.nLock++; if (vio_step()) return -1; return 0; }
 int vio_fclose(FILE* fp)
 {
-	VStream* s = (VStream*)fp; VFile* f = &vio.f[s->file]; vio.nClose++;
+	VStream* s = vio_s(fp); VFile* f = &vio.f[s->file]; vio.nClose++;
 	bool fail = vio_step(true);
 	if (!fail) f->flushed = f->size; else if (s->dirty) f->size = f->flushed <= f->size ? f->flushed : f->size;
 	s->used = false; s->dirty = false;
@@ -111,7 +121,7 @@ int vio_fclose(FILE* fp)
 int vio_remove(const char* path) { if (vio_step()) return -1; int i = vio_file_of(path); if (i < 0 || !vio.f[i].exists) return -1; vio.f[i].exists = false; vio.f[i].size = 0; vio.f[i].flushed = 0; return 0; }
 char* vio_fgets(char* out, int n, FILE* fp)
 {
-	VStream* s = (VStream*)fp; VFile* f = &vio.f[s->file]; int got = 0;
+	VStream* s = vio_s(fp); VFile* f = &vio.f[s->file]; int got = 0;
 	if (n <= 0) return NULL;
 	for (size_t k = 0; k < FCAP && got < n - 1 && s->pos < f->size; k++) { unsigned char c = f->data[s->pos++]; out[got++] = (char)c; if (c == '\n') break; }
 	out[got] = 0;
